@@ -40,10 +40,10 @@ ASSUMPTIONS = [
     "the caller passes a `bytes` object of any length (the listener only forwards datagrams of at most 8966 bytes: leaf `oversize`)",
     "'strict RFC 1035 parser' = Zc.Wire.Strict (backward pointers >= 12, <= 128 hops, names <= 253 characters, exact rdlength, no trailing bytes); "
     "agreement is claimed when additionally every label re-encodes to <= 63 bytes of UTF-8 (always true for valid UTF-8 labels; RFC 6762 §16)",
-    "name length: the property's own first sentence fixes <= 253 characters, so 'strict' follows that documented limit and NOT RFC 1035's 255 wire "
-    "octets: an RFC-legal 255-octet (254-character) name is rejected by library and Wire.Strict alike, a multi-byte name of <= 253 characters but > 255 "
-    "octets is accepted by both. harness/rfc1035.py (a third parser written from the RFC) cross-checks Wire.Strict under the 253 rule and counts "
-    "both deviations from the RFC rule in the evidence (input_distribution rfc1035:*); they are a reading, not a violation",
+    "name length: the property's own first sentence fixes <= 253 characters, so 'strict' = RFC 1035's 255 wire octets AND that documented limit: an "
+    "RFC-legal 255-octet (254-character) ASCII name is rejected by library and Wire.Strict alike; a multi-byte name of <= 253 characters but > 255 "
+    "octets is accepted by the library and outside Wire.Strict. harness/rfc1035.py (a third parser written from the RFC) cross-checks Wire.Strict and "
+    "counts both deviations of the library from the RFC rule in the evidence (input_distribution rfc1035:*); they are a reading, not a violation",
 ]
 
 REC_BUDGET = 900  # Zc.Wire.DecodeLib.libCfg.recLimit
@@ -878,8 +878,9 @@ def third_parser(res, data, case, obs, strict, have_lean):
     """harness/rfc1035.py, written from the RFC: (i) cross-check of Lean's Wire.Strict under the same 253-character rule,
     (ii) the agreement sentence judged without Lean, (iii) observations against RFC 1035's own 255-octet rule"""
     obj = obs["obj"]
-    p253 = _py_decode(data, "lib253")
+    p253 = _py_decode(data, "strict")      # the rule of Wire.Strict: <= 255 octets and <= 253 characters
     prfc = _py_decode(data, "rfc")
+    pchars = _py_decode(data, "chars253")  # the library's documented rule alone
     if have_lean:
         if (p253 is None) != (strict is None):
             res.disagree("strict-vs-rfc1035.py", case, "python parser %s" % ("rejects" if p253 is None else "accepts"),
@@ -900,7 +901,7 @@ def third_parser(res, data, case, obs, strict, have_lean):
     if prfc is not None and p253 is None and prfc["supported"] and _reenc_ok(prfc["names"]):
         res.count("rfc1035:legal-name-of-254-characters-rejected-by-the-253-rule")
         res.count("rfc1035:legal-254-character-name:library-marks-message-%s" % ("valid(record-skipped)" if obj and obj["valid"] else "invalid"))
-    if p253 is not None and prfc is None and p253["supported"]:
+    if pchars is not None and prfc is None and pchars["supported"]:
         res.count("rfc1035:name-over-255-octets-accepted-by-the-253-character-rule")
         res.count("rfc1035:over-255-octet-name:library-marks-message-%s" % ("valid" if obj and obj["valid"] else "invalid"))
 
